@@ -28,8 +28,16 @@ var Logger = func() logrus.FieldLogger {
 var (
 	scratchOnce sync.Once
 	scratchDir  string
+	scratchOwn  bool
 	dirCounter  uint64
 )
+
+// CleanupScratch removes the scratch directory if this process created it itself.
+func CleanupScratch() {
+	if scratchOwn && scratchDir != "" {
+		_ = os.RemoveAll(scratchDir)
+	}
+}
 
 // ScratchBase returns the per-process scratch directory ($VERIF_SCRATCH or a temp dir outside /repo and /verif).
 func ScratchBase() string {
@@ -45,6 +53,7 @@ func ScratchBase() string {
 				panic(err)
 			}
 			scratchDir = d
+			scratchOwn = true
 		}
 	})
 	return scratchDir
